@@ -101,3 +101,21 @@ package chain
 //@   pure
 //@ func (*Transaction).Size
 //@   pure
+
+// ---- balance handlers, abstractly (C27): the balance of an address is an 8-byte big-endian record
+// under a key that is an injective function of the address; AddBalance adds exactly the amount to
+// that record and touches nothing else.  state/balance.PrefixBalanceHandler is verified against the
+// same statements with balKey = its BalanceKey (whose contract makes it injective). ----
+//@ spec func balKey(bh BalanceHandler, a bytes) bytes
+//@ axiom balKey_injective: forall bh BalanceHandler, a bytes, b bytes :: balKey(bh, a) == balKey(bh, b) ==> a == b
+//@ spec func balOf(m map[string][]byte, k bytes) int = ite(has(m, k), be64(m[k], 0), 0)
+//@ func BalanceHandler.AddBalance
+//@   trusted
+//@   noframe
+//@   requires has(gmap("vis", mu), balKey(self, str(addr))) ==> len(gmap("vis", mu)[balKey(self, str(addr))]) == 8
+//@   modifies gmap("vis", mu)[]
+//@   ensures err == nil ==> has(gmap("vis", mu), balKey(self, str(addr))) && len(gmap("vis", mu)[balKey(self, str(addr))]) == 8 && balOf(gmap("vis", mu), balKey(self, str(addr))) == old(balOf(gmap("vis", mu), balKey(self, str(addr)))) + amount
+//@   ensures err != nil ==> has(gmap("vis", mu), balKey(self, str(addr))) == old(has(gmap("vis", mu), balKey(self, str(addr)))) && gmap("vis", mu)[balKey(self, str(addr))] == old(gmap("vis", mu)[balKey(self, str(addr))])
+//@   ensures forall q string :: q != balKey(self, str(addr)) ==> has(gmap("vis", mu), q) == old(has(gmap("vis", mu), q)) && gmap("vis", mu)[q] == old(gmap("vis", mu)[q])
+//@   ensures old(balOf(gmap("vis", mu), balKey(self, str(addr)))) + amount > MAX ==> err != nil
+//@   ensures state.stok(mu) && old(balOf(gmap("vis", mu), balKey(self, str(addr)))) + amount <= MAX ==> err == nil
